@@ -312,7 +312,11 @@ fn main() {
     }
 
     // ---- Coq case legs ----
-    let case_summary = cases::write_cases(&outdir, thorough, &corpus, &mut rng, n_workers);
+    let case_summary = if std::env::var("H11_ORACLE_ONLY").is_ok() {
+        json!({})
+    } else {
+        cases::write_cases(&outdir, thorough, &corpus, &mut rng, n_workers)
+    };
 
     let summary = json!({
         "seed": seed, "tier": args[1],
